@@ -83,6 +83,8 @@ def load_code(self):
     tea_decipher(data, key)
     self.bufpos += padsize
     obj = xmarshal._FastUnmarshaller(struct.pack("<%dL" % intsize, *data))
+    # nested code objects are encrypted too
+    obj.dispatch = self.dispatch
     code = obj.load_code()
     co_code = patch(code.co_code)
     if PYTHON3:
@@ -286,6 +288,9 @@ def loads(s):
     with our decoding version.
     """
     um = xmarshal._FastUnmarshaller(s)
+    # Replace the code reader for this unmarshaller only: the class-level table is
+    # shared by every later xdis.marsh.loads().
+    um.dispatch = dict(um.dispatch)
     um.dispatch[xmarshal.TYPE_CODE] = load_code
     return um.load()
 
